@@ -61,6 +61,18 @@ impl Metainfo {
         input: source.clone(),
       })?;
 
+    if let Mode::Multiple { files } = &metainfo.info.mode {
+      if files
+        .iter()
+        .any(|file| file.path.components().len() > FilePath::MAX_COMPONENTS)
+      {
+        return Err(Error::MetainfoValidate {
+          input: source.clone(),
+          source: MetainfoError::PathDepth,
+        });
+      }
+    }
+
     if metainfo.info.mode.checked_content_size().is_none() {
       return Err(Error::MetainfoValidate {
         input: source.clone(),
